@@ -38,6 +38,8 @@ class ScaleSpec(SeqSpec):
         if "heap" in self.kinds:
             for n, o, init in [(9000, "asc", False), (12000, "rand", True), (20000, "desc", False)] + ([(100000, "rand", True), (70000, "asc", False)] if big else []):
                 add({"kind": "heap", "n": n, "order": o, "initial": init, "seed": rng.randrange(1 << 30)})
+        if "heap" in self.kinds:
+            add({"kind": "pq-nan-keys"})
         if "last" in self.kinds:
             for n, k in [(65536, 3), (65537, 3), (70000, 5), (131075, 2)] + ([(1 << 20, 7)] if big else []):
                 add({"kind": "last", "n": n, "k": k})
